@@ -33,6 +33,8 @@ pub(crate) mod c11;
 pub(crate) mod c20;
 #[path = "/verif/harness/d/c20_vrf.rs"]
 pub(crate) mod c20_vrf;
+#[path = "/verif/harness/d/c15_sessions.rs"]
+pub(crate) mod c15_sessions;
 #[path = "/verif/harness/d/c18.rs"]
 pub(crate) mod c18;
 #[path = "/verif/harness/d/c18_watch.rs"]
@@ -114,6 +116,7 @@ pub(crate) fn verif_main(args: &[String]) -> i32 {
     let c09 = c09::ExportRules;
     let c05 = c05::MalformedUpdates;
     let c11 = c11::RestartingSpeaker;
+    let c15s = c15_sessions::LimitSessions;
     let c20 = c20::KernelSync;
     let c20v = c20_vrf::VrfFib;
     let c18 = c18::Monitoring { prop: "C18" };
@@ -121,6 +124,6 @@ pub(crate) fn verif_main(args: &[String]) -> i32 {
     let c19 = c18::Monitoring { prop: "C19" };
     let c04 = c04::BulkExport;
     let c19m = c19_mrt::MrtDumps;
-    let checks: Vec<&dyn Check> = vec![&c08, &c01, &c10, &c13, &c07, &c07b, &c16, &c09, &c05, &c11, &c20, &c20v, &c18, &c18w, &c19, &c19m, &c04];
+    let checks: Vec<&dyn Check> = vec![&c08, &c01, &c10, &c13, &c07, &c07b, &c16, &c09, &c05, &c11, &c15s, &c20, &c20v, &c18, &c18w, &c19, &c19m, &c04];
     vcore::main_with(&checks, &plan, args)
 }
